@@ -408,3 +408,23 @@ func HarnessC01ProviderFlushShutdown() {
 	vndAssert(e.count("s0") == 1, "span-exported-once-shutdown-returned")
 	c01Common(e, c01Cfg{queue: 2, batch: 1}, []string{"s0"})
 }
+
+// the deadline scenario in its smallest form, with two timer firings (the
+// deadline and whatever timer the code arms after it): one span, ForceFlush,
+// one more span, Shutdown
+func HarnessC01ExportTimeoutTwice() {
+	stopped := false
+	e := &c01TimeoutExporter{c01Exporter: c01Exporter{stopped: &stopped}}
+	bsp := NewBatchSpanProcessor(e, WithMaxQueueSize(2), WithMaxExportBatchSize(1), WithBatchTimeout(time.Hour), WithExportTimeout(time.Second)).(*batchSpanProcessor)
+	bsp.OnEnd(c01Span("s0", true))
+	if bsp.ForceFlush(context.Background()) == nil {
+		vndReach("flush-nil")
+		vndAssert(e.count("s0") == 1 || atomic.LoadUint32(&bsp.dropped) > 0, "spans-ended-before-flush-are-exported-when-flush-returns-nil")
+	}
+	bsp.OnEnd(c01Span("s1", true))
+	if bsp.Shutdown(context.Background()) == nil {
+		vndGhostStore(&stopped, true)
+		vndReach("shutdown-nil")
+	}
+	c01Common(&e.c01Exporter, c01Cfg{queue: 2, batch: 1}, []string{"s0", "s1"})
+}
